@@ -22,6 +22,9 @@
     * the threshold is a Python float `thr` with `2⁻²⁰ ≤ thr ≤ 1` (`ThrOK`);
     * scope (`InScope`): the tokenizer in set mode returns duplicate-free lists of fewer than 2³² tokens, the right
       table has fewer than 2⁴⁰ rows;
+    * `BodyOK` (SSJ/Props/Common.lean): both join columns hold only strings and missing values (a present value of
+      another type makes the tokenizer raise TypeError) and the output header has no column `_id` (else the final
+      `insert(0, '_id', …)` raises ValueError) — needed because the theorems CONCLUDE that the call returns;
     * everything else is arbitrary: the other rows of both tables, `n_jobs`, the CPU count, `allow_empty`,
       `allow_missing`, `out_sim_score`, output attributes and prefixes, the tokenizer object's current flag.
   NOT covered: a threshold passed as the Python int `1`; thresholds below 2⁻²⁰; tokenizers / tables outside
@@ -45,18 +48,21 @@ theorem setsim_complete (m : Measure) (hm : SetMeasure m) (a : JoinArgs) (t : To
     (hpl : Present l a.lAttr ls) (hpr : Present r a.rAttr rs)
     (hne : Spec.bothEmpty (tokensOf (toks true) l a.lAttr ls) (tokensOf (toks true) r a.rAttr rs) = false)
     (hq : Spec.qualStrict m a.compOp (.float thr) (tokensOf (toks true) l a.lAttr ls)
-      (tokensOf (toks true) r a.rAttr rs) = true) :
+      (tokensOf (toks true) r a.rAttr rs) = true)
+    (hb : BodyOK a.toTableArgs l r a.outSimScore) :
     ∃ fr, (setSimJoinPy m a t toks cpu).result = .ok fr ∧
       ∃ row ∈ fr.rows, rowKeys row = (keyOf l a.lKey ls, keyOf r a.rKey rs) ∧
         (a.outSimScore = true → rowScore row = scoreCell (Spec.score4 m (tokensOf (toks true) l a.lAttr ls)
           (tokensOf (toks true) r a.rAttr rs))) :=
-  EntrySetSim.complete m a t toks cpu l r hm hv thr hthr hok hs ls hls rs hrs hpl hpr hne hq
+  EntrySetSim.complete m a t toks cpu l r hm hv thr hthr hok hs ls hls rs hrs hpl hpr hne hq hb
 
-/-- Validated arguments never make the join raise: the call returns a frame (whatever the threshold). -/
+/-- Validated arguments, string join columns and an output header without `_id` (`BodyOK`) never make the join
+    raise: the call returns a frame (whatever the threshold).  Without `BodyOK` it raises: `C15.nonstring_join_value_raises`,
+    `C15.id_clash_raises`. -/
 theorem setsim_returns (m : Measure) (a : JoinArgs) (t : TokObj) (toks : TokFn) (cpu : Int)
-    (l r : Frame) (hv : validateJoin m.name a t = .ok (l, r)) :
+    (l r : Frame) (hv : validateJoin m.name a t = .ok (l, r)) (hb : BodyOK a.toTableArgs l r a.outSimScore) :
     ∃ fr, (setSimJoinPy m a t toks cpu).result = .ok fr :=
-  EntrySetSim.total m a t toks cpu l r hv
+  EntrySetSim.total m a t toks cpu l r hv hb
 
 /-! non-vacuity: the request `jaccard_join(exL, exR, 'id', 'id', 's', 's', tok, 0.5, allow_missing=True, n_jobs=2)`
     of `EntrySetSim.Ex` on 4 CPUs — left rows (1,"ab") (2,"") (3,NaN) (4,"x"), right rows (7,"abc") (8,"") (9,NaN),
@@ -70,7 +76,7 @@ example : ∃ fr, (setSimJoinPy .jaccard exArgs {} exToks 4).result = .ok fr ∧
       (exArgs.outSimScore = true → rowScore row = scoreCell (Spec.score4 .jaccard
         (tokensOf (exToks true) exL "s" exLs) (tokensOf (exToks true) exR "s" exRs))) :=
   setsim_complete .jaccard (Or.inl rfl) exArgs {} exToks 4 exL exR exValid (1 / 2) rfl exThr exScope
-    exLs exLs_mem exRs exRs_mem exLs_present exRs_present exPair_nonempty exPair_qual
+    exLs exLs_mem exRs exRs_mem exLs_present exRs_present exPair_nonempty exPair_qual (by decide +kernel)
 
 example : (keyOf exL "id" exLs, keyOf exR "id" exRs) = (Cell.int 1, Cell.int 7) := by decide +kernel
 
